@@ -1,18 +1,19 @@
 #!/usr/bin/env python3
 """Builds /verif/witnesses/index.json: the sensitivity witnesses the thorough tier replays as
-in-memory overlays (never touching /repo).  Two sources:
-  * seeded/<id>/patch.diff  (independently written property-breaking changes), forward
+in-memory overlays (never touching /repo).  Sources:
+  * seeded/<id>/patch.diff and holdout/<id>/patch.diff (independently written property-breaking changes), forward
   * the repair commits in /repo (known_findings.json status=fixed), applied in reverse
 Each witness names the property checks expected to fire and the rules expected."""
 import json, os, subprocess, glob
 V = os.path.dirname(os.path.dirname(os.path.abspath(__file__)))
 idx = []
-for d in sorted(glob.glob(V + '/seeded/C*-m*')):
-    m = json.load(open(d + '/meta.json'))
-    wid = os.path.basename(d)
-    for prop, rules in sorted((m.get('caught_by') or {}).items()):
-        idx.append({'id': wid, 'property': prop, 'patch': 'seeded/%s/patch.diff' % wid, 'reverse': False,
-                    'expect_rules': sorted(rules), 'kind': 'seeded change (independent author)'})
+for corpus, kind in (('seeded', 'seeded change (independent author)'), ('holdout', 'hold-out change (independent author, written after the rules)')):
+    for d in sorted(glob.glob(V + '/' + corpus + '/C*-m*')):
+        m = json.load(open(d + '/meta.json'))
+        wid = os.path.basename(d)
+        for prop, rules in sorted((m.get('caught_by') or {}).items()):
+            idx.append({'id': wid, 'property': prop, 'patch': '%s/%s/patch.diff' % (corpus, wid), 'reverse': False,
+                        'expect_rules': sorted(rules), 'kind': kind})
 kf = json.load(open(V + '/known_findings.json'))
 seen = set()
 for k in kf:
